@@ -101,7 +101,11 @@ def check(tier, seed):
             good = [it for it in items if not C.guarded(K.impl_pack, *it).startswith('!')]
             body = b''.join(bytes.fromhex(K.impl_pack(*it)) for it in good)
             hdr = bytes([rng.choice([0, 1]), rng.choice([0, 1, 2, 7]), rng.getrandbits(8), rng.getrandbits(8)])
-            mode = rng.choice(['ok', 'ok', 'trunc', 'corrupt', 'tail', 'hdronly', 'badpair'])
+            mode = rng.choice(['ok', 'ok', 'trunc', 'corrupt', 'tail', 'hdronly', 'badpair', 'keyonly'])
+            if mode == 'keyonly' and good:
+                # the last pair is cut right after its 4-byte key (or inside it): malformed, must be rejected
+                enc = [bytes.fromhex(K.impl_pack(*it)) for it in good]
+                body = b''.join(enc[:-1]) + enc[-1][:4]
             if mode == 'badpair':
                 # a malformed pair (size code 0, 6 or 7 - the all-zero key included - or a 1-bit value > 1) at a pair boundary, more pairs after it
                 enc = [bytes.fromhex(K.impl_pack(*it)) for it in good]
@@ -143,8 +147,13 @@ def check(tier, seed):
             n = rng.randrange(2, 7)
             raw = [((rng.choice([2, 3, 4]) << 28) | (rng.randrange(256) << 16) | rng.randrange(4096), rng.randrange(200)) for _ in range(n)]
             body = b''.join(k.to_bytes(4, 'little') + v.to_bytes([0, 1, 1, 2, 4, 8][(k >> 28) & 7], 'little') for k, v in raw)
-            vg = UbxCfgValGet.construct(bytearray(bytes(4) + body))
-            items = [vg.f._fields[f'data{j}'] for j in range(n)]
+            try:
+                vg = UbxCfgValGet.construct(bytearray(bytes(4) + body))
+                items = [vg.f._fields[f'data{j}'] for j in range(n)]
+            except Exception as e:      # noqa
+                res.violation(f'a well-formed CFG-VALGET response ({n} pairs) was rejected or mis-indexed: {type(e).__name__}',
+                              {'property': 'C14', 'input': {'payload_hex': C.hexs(bytes(4) + body)}, 'result': repr(e)}, 'c14-valget-wellformed')
+                continue
             order = list(range(n))
             rng.shuffle(order)
             picked = [items[j] for j in order]
